@@ -617,6 +617,10 @@ func (p *prog) smartTimeLock(c *contract) *opSpec {
 func (p *prog) smartMultisig(c *contract) *opSpec {
 	st := p.cbyte(c, "state")
 	bal := p.balance(c.addr)
+	if dust := new(big.Int).Mul(p.fpg(), big.NewInt(100)); bal.Cmp(dust) <= 0 && p.chance("msTerminateEmpty", 10) {
+		args, cls := p.mangle([][]byte{p.anyAddr("msTermDest")}, "msTermArgs")
+		return p.mkTerminate(c, p.ownerOr(c, "msTermSender"), p.payAmount("msTermPay", c.owner), args, cls, true)
+	}
 	if st == 1 && p.chance("msAdd", 70) {
 		var cand []*sim.Actor
 		for _, a := range p.senders {
@@ -957,7 +961,7 @@ func (p *prog) smartWasm(c *contract) *opSpec {
 		if p.chance("tcRealCode", 60) {
 			data = wasmBins[0].code
 		}
-		m, args = "test", [][]byte{common.ToBytes(uint32(rapid.IntRange(0, 3).Draw(p.t, "tcCase"))), data}
+		m, args = "test", [][]byte{common.ToBytes([]uint32{1, 1, 1, 1, 0, 2, 3, 1 << 31}[p.draw("tcCase", 8)]), data}
 	}
 	if p.chance("wasmOtherExport", 15) {
 		m = c.bin.methods[p.draw("wasmExport", len(c.bin.methods))]
